@@ -610,6 +610,10 @@ pub struct Rig<D: Backend> {
     pub commits: u64,
     pub reopens: u64,
     verify_all: bool,
+    base: PathBuf,
+    generation: u64,
+    /// closes that did not return (third-party shutdown hang)
+    pub close_hangs: u64,
 }
 
 #[derive(Debug, Clone)]
@@ -619,7 +623,9 @@ pub struct Mismatch {
 
 impl<D: Backend> Rig<D> {
     fn new(uni: Universe<D>, path: PathBuf) -> Self {
-        let _ = std::fs::remove_dir_all(&path);
+        let path_base = path.clone();
+        let path = path.join("g0");
+        let _ = std::fs::remove_dir_all(&path_base);
         std::fs::create_dir_all(&path).unwrap();
         let db = D::open_at(&path);
         let n = uni.cells.len();
@@ -634,10 +640,35 @@ impl<D: Backend> Rig<D> {
             commits: 0,
             reopens: 0,
             verify_all: true,
+            base: path_base,
+            generation: 0,
+            close_hangs: 0,
         }
     }
 
     fn db(&self) -> &D { self.db.as_ref().unwrap() }
+
+    /// Closes the database (drops the last handle) on a helper thread and
+    /// waits for it. Returns false if the backend's own shutdown does not
+    /// return within 30 s (observed once in ~10^5 closes with Fjall: its
+    /// `Database::drop` blocks sending to its worker pool) — the directory is
+    /// then abandoned, never reused.
+    fn close(&mut self) -> bool {
+        let Some(db) = self.db.take() else { return true };
+        let (tx, rx) = std::sync::mpsc::channel::<()>();
+        std::thread::spawn(move || {
+            drop(db);
+            let _ = tx.send(());
+        });
+        if rx.recv_timeout(std::time::Duration::from_secs(30)).is_ok() {
+            return true;
+        }
+        self.close_hangs += 1;
+        // a new directory for everything that follows
+        self.generation += 1;
+        self.path = self.base.join(format!("g{}", self.generation));
+        false
+    }
 
     fn fill(&self, ops: &[(usize, Option<usize>)], buffered: &[bool]) -> D::WriteBatch {
         let mut batch = self.db().write_batch();
@@ -686,7 +717,16 @@ impl<D: Backend> Rig<D> {
                 drop(batch);
             }
             Step::Reopen | Step::ReopenUntouched => {
-                self.db = None;
+                if !self.close() {
+                    // nothing can be said about this history any more
+                    std::fs::create_dir_all(&self.path).unwrap();
+                    self.db = Some(D::open_at(&self.path));
+                    for m in &mut self.model {
+                        *m = None;
+                    }
+                    self.touched.clear();
+                    return Err(Mismatch { what: "SKIP: the backend's close did not return".into() });
+                }
                 self.db = Some(D::open_at(&self.path));
                 self.reopens += 1;
             }
@@ -777,7 +817,7 @@ impl<D: Backend> Rig<D> {
 
     /// a brand-new database directory
     fn fresh(&mut self) {
-        self.db = None;
+        let _ = self.close();
         let _ = std::fs::remove_dir_all(&self.path);
         std::fs::create_dir_all(&self.path).unwrap();
         self.db = Some(D::open_at(&self.path));
@@ -809,6 +849,8 @@ impl<D: Backend> Rig<D> {
 // ---------------------------------------------------------------------------
 
 struct Out {
+    /// histories / sweeps abandoned because the backend's close hung
+    skipped: u64,
     evaluations: u64,
     distinct: BTreeSet<String>,
     violations: Vec<Value>,
@@ -876,7 +918,11 @@ fn sweep<D: Backend>(out: &mut Out, rich: bool, reverse: bool, buffered: bool) {
             let res = r.apply(&s, false).and_then(|_| r.verify());
             out.evaluations += 1;
             if let Err(m) = res {
-                fail(out, &r, &steps, m);
+                if m.what.starts_with("SKIP:") {
+                    out.skipped += 1;
+                } else {
+                    fail(out, &r, &steps, m);
+                }
                 let _ = std::fs::remove_dir_all(&root);
                 return;
             }
@@ -922,6 +968,7 @@ fn sweep<D: Backend>(out: &mut Out, rich: bool, reverse: bool, buffered: bool) {
     for c in 0..n {
         out.distinct.insert(format!("{}:{}", D::NAME, r.uni.cells[c].id()));
     }
+    let _ = r.close();
     drop(r);
     let _ = std::fs::remove_dir_all(&root);
 }
@@ -983,9 +1030,13 @@ fn histories<D: Backend>(out: &mut Out, thorough: bool, slice: usize, slices: us
             r.fresh();
         }
         if let Err((at, m)) = r.run(&steps) {
-            let id = ids(r, &steps);
-            out.violation(D::NAME, "histories", "small", &steps, at, &m, id);
-            r.fresh();
+            if m.what.starts_with("SKIP:") {
+                out.skipped += 1;
+            } else {
+                let id = ids(r, &steps);
+                out.violation(D::NAME, "histories", "small", &steps, at, &m, id);
+                r.fresh();
+            }
         }
     };
 
@@ -1066,13 +1117,14 @@ fn histories<D: Backend>(out: &mut Out, thorough: bool, slice: usize, slices: us
         "wall_s": t0.elapsed().as_secs_f64(),
     }));
     out.distinct.insert(format!("{}:hist-slice-{slice}", D::NAME));
+    let _ = r.close();
     drop(r);
     let _ = std::fs::remove_dir_all(&root);
 }
 
 fn run_backend<D: Backend>(tier: &str, part: &str) -> Value {
     let thorough = tier == "thorough";
-    let mut out = Out { evaluations: 0, distinct: BTreeSet::new(), violations: vec![], caps: vec![], parts: vec![] };
+    let mut out = Out { skipped: 0, evaluations: 0, distinct: BTreeSet::new(), violations: vec![], caps: vec![], parts: vec![] };
     let t0 = Instant::now();
     let mut it = part.split(':');
     match it.next().unwrap_or("") {
@@ -1093,7 +1145,15 @@ fn run_backend<D: Backend>(tier: &str, part: &str) -> Value {
         "evaluations": out.evaluations,
         "distinct": out.distinct.into_iter().collect::<Vec<_>>(),
         "violations": out.violations,
-        "caps": out.caps,
+        "caps": if out.skipped > 0 {
+            vec![format!(
+                "{} histories skipped: the backend's own close ({}::drop) did not return within 30 s",
+                out.skipped,
+                D::NAME
+            )]
+        } else {
+            out.caps
+        },
         "parts": out.parts,
         "wall_s": t0.elapsed().as_secs_f64(),
     })
@@ -1109,6 +1169,7 @@ fn replay_backend<D: Backend>(r: &Value) -> i32 {
     let root = scratch_root().join("replay");
     let mut rig = Rig::<D>::new(uni, root.clone());
     let res = rig.run(&steps);
+    let _ = rig.close();
     drop(rig);
     let _ = std::fs::remove_dir_all(scratch_root());
     match res {
